@@ -278,6 +278,14 @@ func Normalize(fset *token.FileSet, files []*ast.File, pkg *types.Package, info 
 	}
 	// parameter objects are taken apart again (needs current type information; then the callers'
 	// struct variables are used field by field only)
+	if n.sroaIfaceParams() {
+		p2, i2, err := check(files)
+		if err != nil {
+			return nil, nil, n.rep, fmt.Errorf("normalised source does not type-check after splitting a struct parameter of an interface method: %v", err)
+		}
+		n.pkg, n.info = p2, i2
+		n.rep.Rounds++
+	}
 	if n.sroaParams() {
 		p2, i2, err := check(files)
 		if err != nil {
@@ -482,10 +490,6 @@ func (n *norm) eligible(d *ast.FuncDecl) string {
 					why = "recovers"
 				}
 			}
-		case *ast.BranchStmt:
-			if s.Tok == token.GOTO {
-				why = "goto"
-			}
 		}
 		return true
 	})
@@ -508,6 +512,9 @@ func (n *norm) round() (bool, error) {
 			localNames := n.localNames(fd)
 			n.curFn = fd
 			if !n.inGenerated {
+				if n.inlineMethodValues(fd) {
+					changed = true
+				}
 				n.registerClosures(fd, file)
 			}
 			// (0) hoist statements out of if/switch init positions when they hold an expandable call
@@ -2055,4 +2062,170 @@ func (n *norm) removeExpandedClosures(fd *ast.FuncDecl) {
 		}, nil)
 		n.rep.Expanded["(closure) "+Key(fd)+"."+v.Name()]++
 	}
+}
+
+// inlineMethodValues: `f := x.m` (a method value held in a local that is never reassigned and
+// only ever called) followed by `f(args)` becomes `x.m(args)`; the definition stays (evaluating a
+// method value of a nil interface panics there), with a blank use. x must be an identifier that
+// is assigned once, or a chain of field selections on one whose fields are not assigned anywhere
+// in the function, and must not be redeclared in the function (no shadowing at the call sites).
+func (n *norm) inlineMethodValues(fd *ast.FuncDecl) bool {
+	declCount := map[string]int{}
+	ast.Inspect(fd, func(y ast.Node) bool {
+		if did, isId := y.(*ast.Ident); isId && n.info.Defs[did] != nil {
+			declCount[did.Name]++
+		}
+		return true
+	})
+	assignedFields := map[string]bool{}
+	ast.Inspect(fd.Body, func(y ast.Node) bool {
+		switch s := y.(type) {
+		case *ast.AssignStmt:
+			for _, l := range s.Lhs {
+				if sel, ok := ast.Unparen(l).(*ast.SelectorExpr); ok {
+					assignedFields[sel.Sel.Name] = true
+				}
+			}
+		case *ast.IncDecStmt:
+			if sel, ok := ast.Unparen(s.X).(*ast.SelectorExpr); ok {
+				assignedFields[sel.Sel.Name] = true
+			}
+		case *ast.UnaryExpr:
+			if s.Op == token.AND {
+				if sel, ok := ast.Unparen(s.X).(*ast.SelectorExpr); ok {
+					assignedFields[sel.Sel.Name] = true
+				}
+			}
+		}
+		return true
+	})
+	saveFn := n.curFn
+	n.curFn = fd
+	defer func() { n.curFn = saveFn }()
+	stable := func(e ast.Expr) bool {
+		for {
+			switch x := ast.Unparen(e).(type) {
+			case *ast.Ident:
+				v, ok := n.info.Uses[x].(*types.Var)
+				if !ok || declCount[x.Name] > 1 {
+					return false
+				}
+				if v.Parent() == n.pkg.Scope() {
+					return false
+				}
+				return n.aliasable(x, v.Type())
+			case *ast.SelectorExpr:
+				sel := n.info.Selections[x]
+				if sel == nil || sel.Kind() != types.FieldVal || assignedFields[x.Sel.Name] {
+					return false
+				}
+				e = x.X
+			default:
+				return false
+			}
+		}
+	}
+	type mv struct {
+		v    *types.Var
+		recv ast.Expr
+		meth string
+		def  ast.Stmt
+	}
+	var found []*mv
+	ast.Inspect(fd.Body, func(x ast.Node) bool {
+		var id *ast.Ident
+		var rhs ast.Expr
+		var def ast.Stmt
+		switch as := x.(type) {
+		case *ast.AssignStmt:
+			if as.Tok != token.DEFINE || len(as.Lhs) != 1 || len(as.Rhs) != 1 {
+				return true
+			}
+			id, _ = as.Lhs[0].(*ast.Ident)
+			rhs, def = as.Rhs[0], as
+		case *ast.DeclStmt:
+			gd, ok := as.Decl.(*ast.GenDecl)
+			if !ok || gd.Tok != token.VAR || len(gd.Specs) != 1 {
+				return true
+			}
+			vs := gd.Specs[0].(*ast.ValueSpec)
+			if len(vs.Names) != 1 || len(vs.Values) != 1 {
+				return true
+			}
+			id, rhs, def = vs.Names[0], vs.Values[0], as
+		default:
+			return true
+		}
+		if id == nil || id.Name == "_" {
+			return true
+		}
+		sel, ok := ast.Unparen(rhs).(*ast.SelectorExpr)
+		if !ok {
+			return true
+		}
+		s := n.info.Selections[sel]
+		if s == nil || s.Kind() != types.MethodVal || !stable(sel.X) {
+			return true
+		}
+		v, ok := n.info.Defs[id].(*types.Var)
+		if !ok {
+			return true
+		}
+		found = append(found, &mv{v: v, recv: sel.X, meth: sel.Sel.Name, def: def})
+		return true
+	})
+	changed := false
+	for _, m := range found {
+		// every use is a call position (or a blank use), never reassigned
+		okUses, ncalls := true, 0
+		calls := map[*ast.Ident]bool{}
+		blank := map[*ast.Ident]bool{}
+		ast.Inspect(fd.Body, func(y ast.Node) bool {
+			switch s := y.(type) {
+			case *ast.CallExpr:
+				if cid, isId := ast.Unparen(s.Fun).(*ast.Ident); isId && n.info.Uses[cid] == types.Object(m.v) {
+					calls[cid] = true
+					ncalls++
+				}
+			case *ast.AssignStmt:
+				if s.Tok == token.ASSIGN && len(s.Lhs) == 1 && len(s.Rhs) == 1 {
+					if l, ok := s.Lhs[0].(*ast.Ident); ok && l.Name == "_" {
+						if rid, ok := s.Rhs[0].(*ast.Ident); ok {
+							blank[rid] = true
+						}
+					}
+				}
+			}
+			return true
+		})
+		ast.Inspect(fd.Body, func(y ast.Node) bool {
+			if uid, isId := y.(*ast.Ident); isId && n.info.Uses[uid] == types.Object(m.v) && !calls[uid] && !blank[uid] {
+				okUses = false
+			}
+			return true
+		})
+		if !okUses || ncalls == 0 || declCount[m.v.Name()] > 1 {
+			continue
+		}
+		astutil.Apply(fd.Body, nil, func(c *astutil.Cursor) bool {
+			call, ok := c.Node().(*ast.CallExpr)
+			if !ok {
+				return true
+			}
+			if cid, isId := ast.Unparen(call.Fun).(*ast.Ident); isId && calls[cid] {
+				call.Fun = &ast.SelectorExpr{X: copyExpr(m.recv), Sel: ast.NewIdent(m.meth)}
+			}
+			return true
+		})
+		// keep the definition used
+		astutil.Apply(fd.Body, nil, func(c *astutil.Cursor) bool {
+			if st, ok := c.Node().(ast.Stmt); ok && st == m.def && c.Index() >= 0 {
+				c.InsertAfter(&ast.AssignStmt{Lhs: []ast.Expr{ast.NewIdent("_")}, Tok: token.ASSIGN, Rhs: []ast.Expr{ast.NewIdent(m.v.Name())}})
+			}
+			return true
+		})
+		n.rep.Expanded["(method value) "+Key(fd)+"."+m.v.Name()]++
+		changed = true
+	}
+	return changed
 }
